@@ -1,5 +1,6 @@
 import ConfModel.Driver.Common
 import ConfModel.Model.DataTracer
+import ConfModel.Model.DataTracerSeg
 import ConfModel.Spec.Envelopes
 import ConfModel.Model.Builder
 import ConfModel.Spec.Handoff
@@ -203,6 +204,122 @@ def startOk (events : List String) : Bool :=
   | some i => (events.take i).contains "P"
   | none => true
 
+/-! ### op `big`: bodies given by segments (calls) and by their structure (envelopes) -/
+
+/-- the calls of one direction: `{"x": hex}` literal bytes, `{"z": n, "t": times}` filler -/
+def segsOf (j : Json) : List Seg :=
+  (arr j).flatMap fun g =>
+    let times := max 1 (nat (field g "t"))
+    let z := nat (field g "z")
+    let x := str (field g "x")
+    List.replicate times (if z > 0 || x == "" then Seg.fill z else Seg.lit (unhex x))
+
+/-- the structure of a direction's body: its complete envelopes (the payload is given where the
+specification looks at it, see `Lemmas.EnvelopeEncode.itemEvents_payload_irrel`) and what is
+left after the last one -/
+def structOf (j : Json) : List Item × Tail :=
+  let items := (arr (field j "items")).map fun it =>
+    (⟨⟨UInt8.ofNat (nat (field it "flags")), nat (field it "len")⟩, unhex (str (field it "payload"))⟩ : Item)
+  let tail : Tail := match arr (field j "tail") with
+    | [k, n] => if str k == "prefix" then .partialPrefix (nat n) else .clean
+    | [k, f, n, seen] => if str k == "payload" then .partialPayload ⟨UInt8.ofNat (nat f), nat n⟩ (nat seen) else .clean
+    | _ => .clean
+  (items, tail)
+
+def endErrOf (ending : String) : EndErr :=
+  match ending with
+  | "eof" => .nil
+  | "err" => .inner
+  | _ => .other
+
+/-- the specified events of a direction, from the structure (a stream) or from the byte total -/
+def bigSpec (c : Cfg) (j : Json) (segs : List Seg) (e : EndErr) (alt : Bool) : List NEv :=
+  let total := (segs.map Seg.length).foldl (· + ·) 0
+  let st := structOf j
+  let evs := if c.isStream then st.1.flatMap (itemEvents c) ++ (if alt then tailEventsAlt st.2 else tailEvents st.2)
+             else countEvents total
+  numberEvs 0 evs ++ [NEv.bodyEnd e]
+
+structure BigSide where
+  cfg : Cfg
+  segs : List Seg
+  err : EndErr
+  model : List Out
+  specA : List String
+  specB : List String
+  total : Nat
+
+def bigSide (j : Json) (isReq : Bool) (e : EndErr) : BigSide :=
+  let c := cfgOf j isReq []
+  let segs := segsOf (field j "segs")
+  let side := if isReq then "q" else "p"
+  { cfg := c, segs := segs, err := e,
+    model := (wrunS c winit (segs.map SOp.seg ++ [SOp.fin e])).2,
+    specA := (bigSpec c j segs e false).map (render side),
+    specB := (bigSpec c j segs e true).map (render side),
+    total := (segs.map Seg.length).foldl (· + ·) 0 }
+
+def sideOutOk (j : Json) (b : BigSide) (endCls : String) : Bool :=
+  nat (field j "total") == b.total && nat (field j "mismatch") == 0 && str (field j "array") == "" &&
+  nat (field j "calls") == b.segs.length && str (field j "end") == endCls
+
+def handleBig (inp impl : Json) : Verdict :=
+  if !(isNull (field impl "panic")) then
+    { agree := false, holds := false, why := "panic: " ++ str (field impl "panic") } else
+  let path := str (field inp "path")
+  let sideName := str (field inp "side")
+  let rq := field inp "req"
+  let rp := field inp "resp"
+  let implEvents := (strList (field impl "events")).filter (· != "Q")
+  let completions := nat (field impl "completions")
+  let qEv := implEvents.filter (fun (e : String) => e.startsWith "q")
+  let pEv := implEvents.filter (fun (e : String) => e.startsWith "p")
+  match path with
+  | "reader" =>
+    let isReq := sideName == "req"
+    let j := if isReq then rq else rp
+    let b := bigSide j isReq (endErrOf (str (field j "ending")))
+    let side := if isReq then "q" else "p"
+    let mEvents := (number 0 b.model).map (render side)
+    let mine := if isReq then qEv else pEv
+    let traceOk := mine == b.specA || mine == b.specB
+    -- what the caller's final Read / Close returned: the inner reader's own result
+    let endCls := match str (field j "ending") with | "eof" => "eof" | "err" => "inner" | _ => "nil"
+    let passOk := sideOutOk (field impl (if isReq then "req" else "resp")) b endCls
+    let holds := traceOk && passOk && completions == 1
+    { agree := mine == mEvents && (mEvents == b.specA || mEvents == b.specB) && completions == 1 && passOk,
+      holds := holds, nontrivial := b.total ≥ 2 ^ 32 || b.segs.length > 8,
+      model := toJson mEvents, cls := if b.cfg.isStream then "big-stream" else "big-non-stream",
+      why := if holds then "" else
+        if !traceOk then s!"trace {mine} but a body of {b.total} bytes with this structure gives {b.specA}"
+        else if !passOk then "the caller did not see what the inner reader returned (" ++ (field impl (if isReq then "req" else "resp")).compress ++ ")"
+        else s!"trace delivered {completions} times" }
+  | "handler" | "rt" =>
+    -- the request body is read to its end (EOF) by the handler / the transport; then the response
+    let q := bigSide rq true .nil
+    let respErr : EndErr := if path == "handler" then .nil else endErrOf (str (field rp "ending"))
+    let p := bigSide rp false respErr
+    let evs := q.model.map (MEv.out true) ++ [MEv.respStart] ++ p.model.map (MEv.out false)
+    let mEvents := match deliver evs (path == "handler") with | [l] => l | _ => []
+    let traceOk := (qEv == q.specA || qEv == q.specB) && (pEv == p.specA || pEv == p.specB) && startOk implEvents
+    let mQ := mEvents.filter (fun (e : String) => e.startsWith "q")
+    let mP := mEvents.filter (fun (e : String) => e.startsWith "p")
+    let respEnd := if path == "handler" then "nil" else
+      match str (field rp "ending") with | "eof" => "eof" | "err" => "inner" | _ => "nil"
+    let passOk := sideOutOk (field impl "req") q "eof" && sideOutOk (field impl "resp") p respEnd
+    let holds := traceOk && passOk && completions == 1
+    { agree := implEvents == mEvents && (mQ == q.specA || mQ == q.specB) && (mP == p.specA || mP == p.specB) &&
+        completions == 1 && passOk,
+      holds := holds, nontrivial := q.total ≥ 2 ^ 32 || p.total ≥ 2 ^ 32,
+      model := toJson mEvents,
+      cls := if (q.cfg.isStream && q.total ≥ 2 ^ 31) || (p.cfg.isStream && p.total ≥ 2 ^ 31) then "big-stream" else "big-non-stream",
+      why := if holds then "" else
+        if !traceOk then s!"trace {implEvents} but bodies of {q.total} / {p.total} bytes with these structures give {q.specA} / {p.specA}"
+        else if !passOk then "the handler / transport / caller / underlying writer did not see the bodies unchanged (" ++
+          (field impl "req").compress ++ " " ++ (field impl "resp").compress ++ ")"
+        else s!"trace delivered {completions} times" }
+  | _ => bad ("C14 big: unknown path " ++ path)
+
 def handle : Handler := fun op inp impl =>
   -- bodies on which a reused decompressor instance differs from a fresh one are outside the
   -- hypotheses (the decompressor is a function of the payload); they are counted, not judged
@@ -235,7 +352,8 @@ def handle : Handler := fun op inp impl =>
     let specB := (specTraceAlt c body endErr).map (render side)
     let traceOk := implEvents == specA || implEvents == specB
     let seenBytes := String.join (seen.map (·.1))
-    let passOk := seen == inner && seenBytes == hex body
+    -- … and nothing else in its (reused) array was touched
+    let passOk := seen == inner && seenBytes == hex body && str (field impl "bufViol") == ""
     let holds := traceOk && passOk && completions == 1
     let p := parse body
     { agree := implEvents == mEvents && completions == 1 && done == mDone && passOk,
@@ -246,7 +364,7 @@ def handle : Handler := fun op inp impl =>
         (if mEvents.any (·.startsWith "ps:") then "+eos" else ""),
       why := if holds then "" else
         (if !traceOk then "trace " ++ toString implEvents ++ " but the body's envelopes give " ++ toString specA
-         else if !passOk then "caller saw " ++ toString seen ++ " but the inner reader returned " ++ toString inner
+         else if !passOk then "caller saw " ++ toString seen ++ " but the inner reader returned " ++ toString inner ++ " " ++ str (field impl "bufViol")
          else s!"trace delivered {completions} times") }
   | "handler" =>
     let tr := field impl "traced"
@@ -270,7 +388,7 @@ def handle : Handler := fun op inp impl =>
     -- WriteHeader(200) on the way out; net/http never sends that header, so it is not compared)
     let silentPanic := bool (field pl "panicked") && nat (field pl "status") == 0
     let passOk := same "saw" && same "inner" && (silentPanic || (same "status" && same "headerAtWH")) &&
-      same "written" && same "finalHeader" && same "flushes" && same "panicked"
+      same "written" && same "finalHeader" && same "flushes" && same "panicked" && str (field tr "bufViol") == ""
     let written := unhex (str (field tr "written"))
     -- the request side ends the whole trace when it fails
     let reqFailed := match h.reqEnd with | some .nil => false | some _ => true | none => false
@@ -282,7 +400,7 @@ def handle : Handler := fun op inp impl =>
       model := toJson mEvents, cls := if reqFailed then "req-failed" else if h.panicked then "panic" else "",
       why := if holds then "" else
         if !traceOk then s!"trace {implEvents} does not match the envelopes of the bodies (request {hex h.reqBytes}, response {hex written})"
-        else if !passOk then "the handler or the underlying writer saw something else with tracing than without"
+        else if !passOk then "the handler or the underlying writer saw something else with tracing than without " ++ str (field tr "bufViol")
         else s!"trace delivered {completions} times" }
   | "rt" =>
     if !(isNull (field impl "panic")) then
@@ -309,7 +427,7 @@ def handle : Handler := fun op inp impl =>
     let passOk := (field impl "transportSaw").compress == (field impl "reqInner").compress &&
       (field impl "callerSaw").compress == (field impl "respInner").compress &&
       String.join ((stepsOf (field impl "transportSaw")).map (·.1)) == hex reqReads.flatten &&
-      bool (field impl "sameErr") && str (field impl "err") == (if fail then "inner" else "nil") &&
+      bool (field impl "sameErr") && str (field impl "err") == (if fail then "inner" else "nil") && str (field impl "bufViol") == "" &&
       (fail || (nat (field impl "status") == nat (field inp "status") && strList (field impl "respHeader") == hdrs &&
         String.join ((stepsOf (field impl "callerSaw")).map (·.1)) == hex respReads.flatten))
     let traceOk := projOk "q" cq reqReads.flatten (some reqErr) true implEvents &&
@@ -323,6 +441,7 @@ def handle : Handler := fun op inp impl =>
         if !traceOk then s!"trace {implEvents} does not match the envelopes of the bodies"
         else if !passOk then "the transport or the caller saw something else than the inner bodies / response"
         else s!"trace delivered {completions} times" }
+  | "big" => handleBig inp impl
   | _ => bad ("C14: unknown op " ++ op)
 
 end ConfModel.Driver.C14
